@@ -16,7 +16,7 @@ EXPLANATION = ("Two frames A and B with arbitrary symbolic confidence maps (not 
                "inference modules as [A,B], [B,A], [A] and [B] within one symbolic path (the later runs add no forks: their peak patterns are implied). z3 shows that each "
                "frame's centroids / peaks / values are the same in all four runs, that every crop record carries the indices of the frame its centroid came from, that an "
                "all-below-threshold frame yields nothing and leaves its batch-mate unchanged, and that with max_instances = m the kept centroids are a top-m set by value. "
-               "_predict_generator is run over a fake reader with symbolic indices: records carry their own frame's indices/size/content for every batch size.")
+               "_predict_generator is run over a fake reader with symbolic indices: records carry their own frame's indices/size/content/size-matching scale for every batch size (frames of different sizes).")
 ASSUMPTIONS = ["maps are 1x3 / 1x4 cells per frame (so that a frame can hold 0, 1 or 2 peaks); values unconstrained reals", "refinement None", "crop_and_resize geometry-only stub",
                "the PAF scorer is not part of this check (grouping: C08)", "exact real arithmetic"]
 STUBS = ["torch_model -> returns the symbolic maps", "topdown/peak_finding .torch -> proxy", "bottomup.torch.nested -> list stand-in", "crop_and_resize -> geometry-only stub", "fake reader FIFO for _predict_generator"]
@@ -363,8 +363,9 @@ def _run_generator(cfg):
             P.inference_model = lambda ex_: [{"frame_idx": ex_["frame_idx"], "video_idx": ex_["video_idx"], "orig_size": ex_["orig_size"], "pix": ex_["image"][:, 0, 0, 0, 0], "eff": ex_["eff_scale"]}]
             q = queue.Queue()
             for k in range(F):
-                q.put({"image": torch.full((1, 1, 2 + k, 4), float(k + 1) / 8), "frame_idx": T.from_values([fi[k]], (), torch.int32), "video_idx": T.from_values([vi[k]], (), torch.int32),
-                       "orig_size": torch.tensor([float(2 + k), 4.0])})
+                # square frames of different sizes: size matching to 4x4 gives every frame its own effective scale 4/(2+k)
+                q.put({"image": torch.full((1, 1, 2 + k, 2 + k), float(k + 1) / 8), "frame_idx": T.from_values([fi[k]], (), torch.int32), "video_idx": T.from_values([vi[k]], (), torch.int32),
+                       "orig_size": torch.tensor([float(2 + k), float(2 + k)])})
             q.put({"image": None, "frame_idx": None, "video_idx": None, "orig_size": None})
             P.pipeline = type("R", (), {"frame_buffer": q, "start": lambda self: None, "join": lambda self: None})()
             P.preprocess_config["max_height"], P.preprocess_config["max_width"] = 4, 4  # size matching pads every frame to 4x4 so that they can be batched
@@ -386,15 +387,18 @@ def _run_generator(cfg):
         for r, ks in zip(recs, want):
             def vals_of(x):
                 return x.values() if isinstance(x, T.SymTensor) else [v for v in np.asarray(x).reshape(-1)]
-            f_, v_, o_, p_ = vals_of(r["frame_idx"]), vals_of(r["video_idx"]), vals_of(r["orig_size"]), vals_of(r["pix"])
+            f_, v_, o_, p_, e_ = vals_of(r["frame_idx"]), vals_of(r["video_idx"]), vals_of(r["orig_size"]), vals_of(r["pix"]), vals_of(r["eff"])
             if not (len(f_) == len(ks)):
                 rep.record("P2-records-carry-their-own-frames-indices-size-and-image", "sat")
                 continue
             goals = []
             for q_, k in enumerate(ks):
-                goals += [rcmp("==", XF.of(f_[q_]).v, fi[k]), rcmp("==", XF.of(v_[q_]).v, vi[k]), rcmp("==", XF.of(o_[2 * q_]).v, 2 + k), rcmp("==", XF.of(o_[2 * q_ + 1]).v, 4),
+                goals += [rcmp("==", XF.of(f_[q_]).v, fi[k]), rcmp("==", XF.of(v_[q_]).v, vi[k]), rcmp("==", XF.of(o_[2 * q_]).v, 2 + k), rcmp("==", XF.of(o_[2 * q_ + 1]).v, 2 + k),
                           rcmp("==", XF.of(p_[q_]).v, Fraction(k + 1, 8))]
-            discharge(ex, rep, "P2-records-carry-their-own-frames-indices-size-and-image", And(*goals), on_sat=lambda mo, env: ("generator:misaligned", "a record carries another frame's index / size / image", extract(mo, env)))
+                # ... and its own size-matching scale (float32 of 4/(2+k))
+                ev_ = XF.of(e_[q_]).v if q_ < len(e_) else None
+                goals.append(False if ev_ is None else And(rcmp(">=", ev_, Fraction(4, 2 + k) - Fraction(1, 10 ** 5)), rcmp("<=", ev_, Fraction(4, 2 + k) + Fraction(1, 10 ** 5))))
+            discharge(ex, rep, "P2-records-carry-their-own-frames-indices-size-and-image", And(*goals), on_sat=lambda mo, env: ("generator:misaligned", "a record carries another frame's index / size / image / effective scale", extract(mo, env)))
         rep.sample({"batches": want})
     for w in REQUIRED_WITNESSES:
         rep.witness(w, True)
@@ -492,14 +496,14 @@ def replay(cfg, inputs, obligation):
         P.preprocess_config = {"batch_size": B, "scale": 1.0, "is_rgb": False, "max_stride": 1, "max_height": 4, "max_width": 4}
         P.preprocess = True
         P.instances_key = False
-        P.inference_model = lambda ex_: [{"frame_idx": ex_["frame_idx"], "video_idx": ex_["video_idx"], "orig_size": ex_["orig_size"], "pix": ex_["image"][:, 0, 0, 0, 0]}]
+        P.inference_model = lambda ex_: [{"frame_idx": ex_["frame_idx"], "video_idx": ex_["video_idx"], "orig_size": ex_["orig_size"], "pix": ex_["image"][:, 0, 0, 0, 0], "eff": ex_["eff_scale"]}]
         q = queue.Queue()
         for k in range(F):
-            q.put({"image": torch.full((1, 1, 2 + k, 4), float(k + 1) / 8), "frame_idx": torch.tensor(fi[k], dtype=torch.int32), "video_idx": torch.tensor(vi[k], dtype=torch.int32), "orig_size": torch.tensor([float(2 + k), 4.0])})
+            q.put({"image": torch.full((1, 1, 2 + k, 2 + k), float(k + 1) / 8), "frame_idx": torch.tensor(fi[k], dtype=torch.int32), "video_idx": torch.tensor(vi[k], dtype=torch.int32), "orig_size": torch.tensor([float(2 + k), float(2 + k)])})
         q.put({"image": None, "frame_idx": None, "video_idx": None, "orig_size": None})
         P.pipeline = type("R", (), {"frame_buffer": q, "start": lambda self: None, "join": lambda self: None})()
         recs = list(P._predict_generator())
-        got = [(int(a), int(b), float(o[0]), round(float(p) * 8)) for r in recs for a, b, o, p in zip(r["frame_idx"], r["video_idx"], r["orig_size"], r["pix"])]
-        want = [(fi[k], vi[k], float(2 + k), k + 1) for k in range(F)]
+        got = [(int(a), int(b), float(o[0]), round(float(p) * 8), round(float(e), 3)) for r in recs for a, b, o, p, e in zip(r["frame_idx"], r["video_idx"], r["orig_size"], r["pix"], r["eff"])]
+        want = [(fi[k], vi[k], float(2 + k), k + 1, round(4 / (2 + k), 3)) for k in range(F)]
         return got != want, f"records {got} expected {want}"
     return False, "unknown"
